@@ -188,6 +188,33 @@ func init() {
 					w.finish(true)
 				})
 			}
+			// 4a0. blocking writes that are still waiting when the application calls Shutdown: the association is no longer
+			//      established when they could be queued -- they fail, what was accepted before is delivered, Shutdown completes
+			if next() {
+				label := fmt.Sprintf("api-blockwrite-shutdown-il%v#%d", il, k)
+				run(label, func() {
+					w := vfNewWorld(vfWorldOpt{Label: label, Trace: tr, A: vfEpCfg{InitTSN: 14, Tag: 0xA6, IL: il, BlockWrite: true, Buf: 8192}, B: vfEpCfg{InitTSN: 55, Tag: 0xB6, IL: il, Server: true, Buf: 8192}})
+					if !w.vfConnect() {
+						w.finish(true)
+						return
+					}
+					for sid := 1; sid <= 5; sid++ {
+						w.open(0, sid, 51)
+					}
+					for sid := 1; sid <= 5; sid++ {
+						w.writeAsync(0, sid, 2500, 51)
+						w.pump(6) // nobody reads: the peer's window closes, later writes block
+					}
+					a := w.ep[0].a
+					w.apiAsync(0, "shutdown", func() error { return a.Shutdown(context.Background()) })
+					w.tick(500 * time.Millisecond)
+					w.heal(100 * time.Second)
+					w.snapAll = true
+					w.quiesce()
+					w.tr.emit(map[string]any{"ev": "shutend", "who": 0, "t": w.now()})
+					w.finish(true)
+				})
+			}
 			// 4a'. the write deadline is moved into the future at the very instant it expires, while the write is
 			//      blocked (net.Conn semantics: deadlines may be changed while I/O is pending). Whichever way the
 			//      race goes, a write that reports success has been queued: it is transmitted and delivered, and no
